@@ -151,10 +151,28 @@ Definition km_entry (p : list nat) (init : list key) (m : keymap) : fkeys * keym
   | None => let f := fk_new init in (f, km_set p f m)
   end.
 
-(** KeyedSubfield::update_keys *)
+(** the segments FieldKeys::update hands back: those of the keys that are no longer present *)
+Definition fk_removed (f : fkeys) (latest : list key) : list nat :=
+  map (fun e => fst (snd e))
+      (filter (fun e => negb (existsb (Z.eqb (fst e)) latest)) (fk_keys f)).
+
+Fixpoint starts_with (p q : list nat) : bool :=     (* q.starts_with(p) *)
+  match p, q with
+  | [], _ => true
+  | x :: p, y :: q => Nat.eqb x y && starts_with p q
+  | _ :: _, [] => false
+  end.
+
+(** KeyMap::remove_below: forget the FieldKeys of every keyed field at or below [p] *)
+Definition km_remove_below (p : list nat) (m : keymap) : keymap :=
+  filter (fun e => negb (starts_with p (fst e))) m.
+
+(** KeyedSubfield::update_keys: update the FieldKeys of the field at [p], then forget the keys
+    of the keyed fields nested in the removed items (their path segments are recycled) *)
 Definition km_update (c1 c2 : list nat) (p : list nat) (latest : list key) (m : keymap) : keymap :=
   let '(f, m') := km_entry p latest m in
-  km_set p (fk_update c1 c2 f latest) m'.
+  fold_left (fun m seg => km_remove_below (p ++ [seg]) m) (fk_removed f latest)
+            (km_set p (fk_update c1 c2 f latest) m').
 
 (** a whole history of contents of one keyed field: created from the first, then one
     update_keys per later content *)
